@@ -429,11 +429,12 @@ func eventSec(text string) int64 {
 // ---------- level 2: the real Auditd.Read ----------
 
 type recEnc struct {
-	mu     sync.Mutex
-	budget int
-	failed bool
-	out    []time.Time // LoggedAt of each written event
-	ids    []string
+	mu        sync.Mutex
+	budget    int
+	transient bool
+	failed    bool
+	out       []time.Time // LoggedAt of each written event
+	ids       []string
 }
 
 func (e *recEnc) Encode(v any) error {
@@ -441,6 +442,9 @@ func (e *recEnc) Encode(v any) error {
 	defer e.mu.Unlock()
 	if e.budget == 0 {
 		e.failed = true
+		if e.transient {
+			e.budget = -1
+		}
 		return errInjected
 	}
 	if e.budget > 0 {
@@ -495,7 +499,7 @@ func mkRUL(l *Login) common.RemoteUserLogin {
 func runL2(c *Case) obs2 {
 	var o obs2
 	o.StopAt = -1
-	enc := &recEnc{budget: c.Budget}
+	enc := &recEnc{budget: c.Budget, transient: c.Transient}
 	lines := make(chan string)
 	logins := make(chan common.RemoteUserLogin)
 	a := auditd.Auditd{
@@ -754,7 +758,7 @@ func judgeL2(c *Case, o obs2) []fail {
 			}
 		}
 	}
-	if c.Budget >= 0 && len(o.Written) > c.Budget {
+	if c.Budget >= 0 && !c.Transient && len(o.Written) > c.Budget {
 		fs = append(fs, fail{"harness", "more events recorded than the budget allows"})
 	}
 	return fs
